@@ -487,11 +487,17 @@ struct CamHarness : Harness
                 if (!ok)
                     break; // camera no longer running
                 bool overlapped_stop = w->stop_invoked_seq != 0;
-                if (id < 0 || overlapped_stop) {
-                    // a call overlapping stop may return without a frame
+                if (overlapped_stop)
                     probe("reach.frame_call_overlaps_stop");
+                if (id < 0) {
+                    // a call overlapping stop may return without a frame
                     continue;
                 }
+                if (overlapped_stop)
+                    // ... but if it does deliver one, that frame counts (it
+                    // must have been paid for by a trigger, not by the one
+                    // stop fires to release the streamer)
+                    probe("reach.frame_delivered_across_stop");
                 probe("n.frames");
                 w->frames_returned++;
                 if (id <= w->last_id)
